@@ -248,7 +248,7 @@ def tpcds_inputs() -> list[dict]:
 
 def risky(g, tag: str) -> dict:
     """Shapes with several equal-rank candidates in one set."""
-    kind = g.choice(["unqualified_many", "wildcard_disjoint", "drop_rename_mix", "multi_rename", "many_tables", "many_targets", "consumption_variants", "consumption_variants", "repeated_target", "repeated_target", "anon_derived_star", "column_ring", "column_ring", "cte_shapes", "cte_shapes", "cte_shapes"])
+    kind = g.choice(["unqualified_many", "wildcard_disjoint", "drop_rename_mix", "multi_rename", "many_tables", "many_targets", "consumption_variants", "consumption_variants", "repeated_target", "repeated_target", "anon_derived_star", "column_ring", "column_ring", "cte_shapes", "cte_shapes", "cte_shapes", "lateral_alias", "lateral_alias"])
     meta = None
     dialect = g.choice(["ansi", "non-validating"])
     if kind == "unqualified_many":
@@ -404,6 +404,28 @@ def risky(g, tag: str) -> dict:
         # every other variant is analysed first (in a seeded order) in the warm-process world
         inp["siblings"] = [{"sql": ";\n".join(variant(k)), "dialect": dialect, "meta": None, "cfg": {}, "silent": False, "src": "sibling"} for k in ks[1:]]
         return inp
+    elif kind == "lateral_alias":
+        # lateral column alias references (a configuration knob that is off by default): select elements that define
+        # aliases, reference earlier aliases together with other columns, and reference the same alias more than once
+        src = f"m.src_{tag}"
+        base = [f"c{i}" for i in range(g.choice([2, 3, 4]))]
+        aliases, items = [], []
+        for k in range(g.choice([3, 4, 5, 6])):
+            if not aliases or g.random() < 0.2:
+                expr = g.choice(base)
+            else:
+                parts = [g.choice(aliases)] + [g.choice(aliases + base) for _ in range(g.choice([0, 1, 1, 2]))]
+                g.shuffle(parts)
+                expr = g.choice([" + ".join(parts), "coalesce(" + ", ".join(parts) + ")", f"{parts[0]} * 2", f"CASE WHEN {parts[0]} > 0 THEN {parts[-1]} ELSE {g.choice(base)} END"])
+            name = f"a{k}" if g.random() < 0.9 else g.choice(base)
+            items.append(f"{expr} AS {name}")
+            aliases.append(name)
+        sql = f"INSERT INTO m.out_{tag} SELECT {', '.join(items)} FROM {src}"
+        if g.random() < 0.3:
+            sql += f" JOIN m.oth_{tag} ON {src}.k = m.oth_{tag}.k"
+        meta = {src: ["k"] + base, f"m.oth_{tag}": ["k", "z"]} if g.random() < 0.75 else None
+        return {"sql": sql, "dialect": "ansi" if g.random() < 0.8 else "non-validating", "meta": meta,
+                "cfg": ({"LATERAL_COLUMN_ALIAS_REFERENCE": True} if g.random() < 0.85 else {}), "silent": False, "src": "risky:" + kind}
     elif kind == "many_tables":
         n = g.choice([4, 6, 8])
         tabs = [f"m.j{i}" for i in range(n)]
@@ -431,7 +453,8 @@ def generated_inputs(seed: int, n: int) -> list[dict]:
         # a sibling script over the SAME names (same tag) but a different shape: analysed first in the warm-process world
         g2 = stream(seed, f"c11-gen-{i}-sibling")
         sib = ";\n".join(ScriptGen(g2, f"g{i}").script(g2.choice([2, 3, 4])))
-        out.append({"sql": sql, "dialect": dialect, "meta": meta, "cfg": {}, "silent": False, "src": "generated",
+        cfg = {"LATERAL_COLUMN_ALIAS_REFERENCE": True} if stream(seed, f"c11-gen-{i}-cfg").random() < 0.2 else {}
+        out.append({"sql": sql, "dialect": dialect, "meta": meta, "cfg": cfg, "silent": False, "src": "generated",
                     "sibling": {"sql": sib, "dialect": dialect, "meta": meta, "cfg": {}, "silent": False, "src": "sibling"}})
     return out
 
